@@ -84,11 +84,14 @@ def combine(tname, name, p, dep_vals, ctx_dig, gen):
     return (name, gen, hashlib.sha1(blob.encode()).hexdigest()[:16])
 
 
-def shape_value(value, shape):
+def shape_value(value, shape, task=None):
     if shape in (None, 'small'):
         return value
     if shape == 'big':
         return {'v': value, 'pad': bytes(range(256)) * 1200}
+    if shape == 'selfref':
+        # the result contains task objects: the task itself and its dependencies
+        return {'v': value, 'me': task, 'deps': walk_deps(task) if task is not None else []}
     if shape == 'nested':
         return {'v': value, 'l': [value, (1, 2.5, None, 'x')], 'd': {'k': [list(value)]}}
     if shape.startswith('unpicklable'):
@@ -213,12 +216,14 @@ def run_body(task):
             raise PlannedBase(name)
         if act == 'exit':
             os._exit(3)
+        if act == 'exit0':
+            os._exit(0)      # the process ends "successfully" without ever delivering a result
         if act == 'kill':
             os.kill(os.getpid(), signal.SIGKILL)
             time.sleep(60)
         raise RuntimeError(f'vlab: unknown action {act}')
     value = combine(tname, name, getattr(task, 'p', None), dep_vals, ctx_digest(ctx), gen)
-    out = shape_value(value, ent.get('shape'))
+    out = shape_value(value, ent.get('shape'), task)
     hook = ent.get('prereturn')
     if hook:
         from . import inject
